@@ -12,7 +12,7 @@ ID = "C15"
 LEVEL = "exploration"
 RULE = (
     "every table within d deviations of a 14-nucleotide duplex (1ehz acceptor stem; deviations: chain ids, negative/gapped numbering, insertion "
-    "codes, residues differing only by insertion code, HETATM, modified residue names, removed O3'/P, translated tail, O3'-P set to 2.39/2.395/"
+    "codes, residues differing only by insertion code, HETATM, modified residue names, removed O3'/P, translated tail, whole structure shifted so that coordinates fill the 8-character PDB fields, O3'-P set to 2.39/2.395/"
     "2.405/2.41 A, reversed atom order, hydrogen names with primes) and every single-conformer corpus structure, each emitted as PDB and mmCIF by an "
     "independent emitter and read four ways (parser.read_3d_structure, parser_v2 + tertiary_v2.Structure; PDB, mmCIF): the four residue maps "
     "(chain, number, icode, name) -> {atom: coordinates} must be equal to the abstract table, is_connected of consecutive residues must agree in all "
@@ -124,6 +124,16 @@ def d_op(dist):
     return f
 
 
+def d_shift(dx, dy, dz):
+    def f(t):
+        for a in t:
+            a["x"] = "%.3f" % (float(a["x"]) + dx)
+            a["y"] = "%.3f" % (float(a["y"]) + dy)
+            a["z"] = "%.3f" % (float(a["z"]) + dz)
+    f.__name__ = "shift(%s,%s,%s)" % (dx, dy, dz)
+    return f
+
+
 def d_reverse(t):
     out = []
     for _, atoms in corpus.residues(t):
@@ -152,6 +162,8 @@ def deviations():
          d_remove("O3'", 3), d_remove("P", 4), d_remove("N9", 3), d_translate]
     d += [d_op(x) for x in (2.39, 2.395, 2.405, 2.41)]
     d += [d_reverse, d_hydrogens]
+    # coordinates that fill the 8-character PDB fields completely (<= -100.000, >= 1000.000)
+    d += [d_shift(-250.0, -250.0, -250.0), d_shift(1500.0, 0.0, -180.0), d_shift(0.0, 2000.0, 0.0)]
     return d
 
 
